@@ -66,7 +66,7 @@ load_audio(void)
     AUD_B = malloc(N_B * 2);
     AUD_SIL = calloc(N_SIL, 2);
     AUD_AF = malloc(N_A * sizeof(float32));
-    N_P = n;
+    N_P = n > 30000 ? 30000 : n; /* "go forward ten" and the start of "meters": 1.9 s */
     AUD_P = malloc(n * 2);
     memcpy(AUD_P, all, n * 2);
     memcpy(AUD_A, all + 2000, N_A * 2);
